@@ -10,5 +10,6 @@ export CARGO_NET_OFFLINE=true
 python3 -c "
 import sys; sys.path.insert(0,'checks'); import gentables
 print(gentables.write_generated(open('.build/tables.txt').read(), 'lean/CG/Generated'))"
+python3 checks/genall.py lean
 (cd lean && lake build CG cgdrv 2>&1 | tail -3)
 echo setup-done
